@@ -52,6 +52,7 @@ static unsigned char* lastFrame[2]; static size_t lastSize[2]; static size_t las
 static unsigned char* expectBuf; static unsigned char* decBuf;
 static ZSTD_DCtx* UD;                                            /* decoder used to find out what a produced frame needs */
 
+static int c16_d_ignores_checksum(ZSTD_DCtx* d) { int v = 0; ZSTD_DCtx_getParameter(d, ZSTD_d_forceIgnoreChecksum, &v); return v != 0; }
 static const char* cls(size_t r) {
     if (!ZSTD_isError(r)) return "ok";
     switch (ZSTD_getErrorCode(r)) {
@@ -390,6 +391,9 @@ int main(void) {
             else if (!strcmp(op, "dvec")) { int k; printf("ok");
                 for (k = 0; k < ndids; k++) { int vv = 0; size_t const r = ZSTD_DCtx_getParameter(d, (ZSTD_dParameter)dids[k], &vv); if (ZSTD_isError(r)) printf(" E"); else printf(" %d", vv); }
                 printf(" %llu %d %d\n", c16_d_maxwin(d), c16_d_stage(d), c16_d_hasdict(d)); }
+            /* round 3: with checksum verification off, a frame decoded with the wrong prefix may "succeed" (wrong content) or not: whether that
+               call uses up a pending prefix (fixes b15fdb6 / b87b37f / 2f289ec: only a successful call does) is then not determined by the model */
+            else if ((!strncmp(op, "ddec", 4)) && c16_d_dictuses(d) == 1 && c16_d_ignores_checksum(d)) printf("skip\n");
             /* ---- round 2 ---- */
             else if (!strcmp(op, "dload")) {
                 if (o == 1 && b) printf("skip\n");     /* a static dctx cannot copy (its allocator is uninitialised memory: reported separately) */
@@ -429,7 +433,8 @@ int main(void) {
                     else printf("err %s\n", ZSTD_isError(r) ? ZSTD_getErrorName(r) : "wrong content");
                     ZSTD_DCtx_reset(d, ZSTD_reset_session_only); dbegan[o] = 0; } }
             else if (!strcmp(op, "dfxb")) {   /* effect: prepared frame b through the buffer-less API (ZSTD_decompressBegin + ZSTD_decompressContinue), then a session reset */
-                if (c16_d_stage(d)) printf("skip\n");
+                /* not run next to a set of referenced DDicts: ZSTD_decodeFrameHeader would select (switch dctx->ddict), and `dfxb` has no model counterpart */
+                if (c16_d_stage(d) || c16_d_set_allocated(d)) printf("skip\n");
                 else { const unsigned char* ip = G[b % 5]; size_t left = Gsize[b % 5]; size_t pos = 0; size_t r = ZSTD_decompressBegin(d); int it = 0;
                     while (!ZSTD_isError(r) && it++ < 4096) { size_t const need = ZSTD_nextSrcSizeToDecompress(d); if (need == 0) break;
                         if (need > left) { r = ERROR(srcSize_wrong); break; }
